@@ -296,34 +296,43 @@ def validOf (valid : List (Nat × Int)) (i : Nat) : Int :=
   | some p => p.2
   | none => 0
 
+/-- `motionValid` of the rewiring loop: the cached answer of the choose-parent loop when there is one
+(`valid[i] = ±1`), otherwise (closer than `maxDistance_` and) a fresh `checkMotion(motion, nbh[i])`. -/
+def rewireCheck (sp : Space σ δ) (valid : List (Nat × Int)) (i : Nat) (s : St σ α δ) (mot nb : Motion σ α) :
+    Bool × St σ α δ :=
+  if validOf valid i = 0 then
+    if sp.dlt (sp.dist nb.state mot.state) sp.maxDistance then s.checkMotion mot.state nb.state
+    else (false, s)
+  else (decide (validOf valid i = 1), s)
+
+/-- the body of `if (motionValid)`: `removeFromParent`, new parent / incCost / cost, push to the new
+parent's children, `updateChildCosts`. -/
+def applyRewire (o : Obj σ α) (s : St σ α δ) (new ni : Nat) (inc cost : α) : St σ α δ :=
+  let ms1 := removeFromParent s.motions ni
+  let ms2 := ms1.modify ni (fun m => { m with parent := some new, incCost := inc, cost := cost })
+  let ms3 := ms2.modify new (fun m => { m with children := m.children ++ [ni] })
+  let r := updateChildCosts o ms3.size ms3 ni
+  { s with motions := r.1, fuelOut := s.fuelOut || r.2 }
+
+/-- `nbhIncCost`: the cached reverse cost when `opt_->isSymmetric()`, else recomputed. -/
+def rewireInc (o : Obj σ α) (incs : List α) (i : Nat) (mot nb : Motion σ α) : α :=
+  if o.symmetric then incs.getD i o.identity else o.motionCost mot.state nb.state
+
 /-- one pass of the rewiring loop body for neighbour position `i`, motion index `ni`;
 `new` is the index of the freshly inserted motion, `incs[i]` the cached `motionCost(nbh[i], motion)`. -/
 def rewireOne (o : Obj σ α) (sp : Space σ δ) (new : Nat) (valid : List (Nat × Int)) (incs : List α)
     (acc : St σ α δ × Bool) (p : Nat × Nat) : St σ α δ × Bool :=
-  let (s, chk) := acc
-  let (i, ni) := p
-  match s.motions[new]?, s.motions[ni]? with
+  match acc.1.motions[new]?, acc.1.motions[p.2]? with
   | some mot, some nb =>
-    if mot.parent = some ni then (s, chk)
+    if mot.parent = some p.2 then acc
     else
-      let nbhIncCost :=
-        if o.symmetric then incs.getD i o.identity else o.motionCost mot.state nb.state
-      let nbhNewCost := o.combine mot.cost nbhIncCost
-      if o.better nbhNewCost nb.cost then
-        let (motionValid, s1) :=
-          if validOf valid i = 0 then
-            if sp.dlt (sp.dist nb.state mot.state) sp.maxDistance then s.checkMotion mot.state nb.state
-            else (false, s)
-          else (validOf valid i = 1, s)
-        if motionValid then
-          let ms1 := removeFromParent s1.motions ni
-          let ms2 := ms1.modify ni (fun m => { m with parent := some new, incCost := nbhIncCost, cost := nbhNewCost })
-          let ms3 := ms2.modify new (fun m => { m with children := m.children ++ [ni] })
-          let (ms4, out) := updateChildCosts o ms3.size ms3 ni
-          ({ s1 with motions := ms4, fuelOut := s1.fuelOut || out }, true)
-        else (s1, chk)
-      else (s, chk)
-  | _, _ => (s, chk)
+      if o.better (o.combine mot.cost (rewireInc o incs p.1 mot nb)) nb.cost then
+        match rewireCheck sp valid p.1 acc.1 mot nb with
+        | (true, s1) =>
+          (applyRewire o s1 new p.2 (rewireInc o incs p.1 mot nb) (o.combine mot.cost (rewireInc o incs p.1 mot nb)), true)
+        | (false, s1) => (s1, acc.2)
+      else acc
+  | _, _ => acc
 
 /-- the solution bookkeeping after `checkForSolution`. -/
 def updateBest (o : Obj σ α) (s : St σ α δ) : St σ α δ :=
@@ -365,15 +374,23 @@ def drawSample (sp : Space σ δ) (s : St σ α δ) : Option σ × St σ α δ :
     | [] => (none, { s with starved := true })
     | x :: xs => (some x, { s with samples := xs })
 
-/-- from `getNeighbors` to the end of the rewiring loop: neighbourhood, choose-parent (delayed collision
-checking), insertion, rewiring.  Returns the state, the new motion's index and `checkForSolution`. -/
-def grow (o : Obj σ α) (sp : Space σ δ) (s : St σ α δ) (nmotion : Nat) (nm : Motion σ α) (dstate : σ) :
-    St σ α δ × Nat × Bool :=
+/-- what the insertion stage hands to the rewiring loop. -/
+structure Grown (σ α δ : Type) where
+  st : St σ α δ
+  new : Nat
+  valid : List (Nat × Int)
+  incs : List α
+  nbhP : List (Nat × Nat)
+
+/-- `getNeighbors`, the cost caches, the choose-parent loop (delayed collision checking) and the
+insertion of the new motion under the chosen parent. -/
+def growInsert (o : Obj σ α) (sp : Space σ δ) (s : St σ α δ) (nmotion : Nat) (nm : Motion σ α) (dstate : σ) :
+    Grown σ α δ :=
   let inc0 := o.motionCost nm.state dstate
   let cost0 := o.combine nm.cost inc0
   -- getNeighbors
-  let (nbh, t1) := nearestK sp s.motions dstate (sp.kNearest s.motions.size)
-  let nbhP := (List.range nbh.length).zip nbh          -- (position, motion index)
+  let nk := nearestK sp s.motions dstate (sp.kNearest s.motions.size)
+  let nbh := nk.1
   let incs := nbh.map (fun ni => match s.motions[ni]? with
     | some m => o.motionCost m.state dstate
     | none => o.identity)
@@ -382,39 +399,62 @@ def grow (o : Obj σ α) (sp : Space σ δ) (s : St σ α δ) (nmotion : Nat) (n
     | none => o.identity)
   -- sort positions by cost with std::sort (CostIndexCompare = isCostBetterThan on costs[i], costs[j])
   let costArr := costs.toArray
-  let (sortedC, t2) := stdSort (fun i j => match costArr[i]?, costArr[j]? with
+  let sc := stdSort (fun i j => match costArr[i]?, costArr[j]? with
     | some ci, some cj => o.better ci cj
     | _, _ => false) (Array.range nbh.length)
-  let cands := sortedC.toList.map (fun p => (p, nbh.getD p 0))
-  let (chosen, valid, s) := chooseParent sp s.motions nmotion dstate cands s []
-  let (par, inc, cost) :=
-    match chosen with
-    | some i => (nbh.getD i nmotion, incs.getD i inc0, costs.getD i cost0)
-    | none => (nmotion, inc0, cost0)
+  let cands := sc.1.toList.map (fun p => (p, nbh.getD p 0))
+  let cp := chooseParent sp s.motions nmotion dstate cands s []
+  let par := match cp.1 with
+    | some i => nbh.getD i nmotion
+    | none => nmotion
+  let inc := match cp.1 with
+    | some i => incs.getD i inc0
+    | none => inc0
+  let cost := match cp.1 with
+    | some i => costs.getD i cost0
+    | none => cost0
   -- add motion to the tree
-  let new := s.motions.size
+  let s1 := cp.2.2
+  let new := s1.motions.size
   let newMotion : Motion σ α :=
     { state := dstate, parent := some par, cost := cost, incCost := inc, children := [], inGoal := false }
-  let ms := s.motions.push newMotion
-  let ms := ms.modify par (fun m => { m with children := m.children ++ [new] })
-  let s := { s with motions := ms, tie := s.tie || t1 || t2 }
-  -- rewiring
-  let (s, chk) := nbhP.foldl (rewireOne o sp new valid incs) (s, false)
-  (s, new, chk)
+  let ms := (s1.motions.push newMotion).modify par (fun m => { m with children := m.children ++ [new] })
+  { st := { s1 with motions := ms, tie := s1.tie || nk.2 || sc.2 }, new := new, valid := cp.2.1, incs := incs,
+    nbhP := (List.range nbh.length).zip nbh }
+
+/-- from `getNeighbors` to the end of the rewiring loop. Returns the state, the new motion's index and
+`checkForSolution`. -/
+def grow (o : Obj σ α) (sp : Space σ δ) (s : St σ α δ) (nmotion : Nat) (nm : Motion σ α) (dstate : σ) :
+    St σ α δ × Nat × Bool :=
+  let g := growInsert o sp s nmotion nm dstate
+  let r := g.nbhP.foldl (rewireOne o sp g.new g.valid g.incs) (g.st, false)
+  (r.1, g.new, r.2)
+
+/-- `goal->isSatisfied(motion->state, &distanceFromGoal)`: `d2g <= threshold_`; a goal motion is appended
+to `goalMotions_` and forces `checkForSolution`. -/
+def goalStep (sp : Space σ δ) (s : St σ α δ) (new : Nat) (chk : Bool) (dstate : σ) : St σ α δ × Bool :=
+  if !sp.dlt sp.goalThr (sp.goalDist dstate) then
+    ({ s with motions := s.motions.modify new (fun m => { m with inGoal := true }),
+              goalMotions := s.goalMotions ++ [new] }, true)
+  else (s, chk)
+
+/-- `if (checkForSolution) …` -/
+def bestStep (o : Obj σ α) (p : St σ α δ × Bool) : St σ α δ :=
+  if p.2 then updateBest o p.1 else p.1
+
+/-- `if (goalMotions_.size() == 0 && distanceFromGoal < approxDist)` -/
+def approxStep (sp : Space σ δ) (s : St σ α δ) (new : Nat) (dstate : σ) : St σ α δ :=
+  if s.goalMotions.isEmpty && sp.dlt (sp.goalDist dstate) s.approxDist then
+    { s with approxGoal := some new, approxDist := sp.goalDist dstate }
+  else s
 
 /-- goal test, solution bookkeeping, approximate-solution bookkeeping for the new motion. -/
 def finishIter (o : Obj σ α) (sp : Space σ δ) (s : St σ α δ) (new : Nat) (chk : Bool) (dstate : σ) : St σ α δ :=
-  let dg := sp.goalDist dstate
-  let sat := !sp.dlt sp.goalThr dg                       -- d2g <= threshold_
-  let (s, chk) :=
-    if sat then
-      ({ s with motions := s.motions.modify new (fun m => { m with inGoal := true }),
-                goalMotions := s.goalMotions ++ [new] }, true)
-    else (s, chk)
-  let s := if chk then updateBest o s else s
-  if s.goalMotions.isEmpty && sp.dlt dg s.approxDist then
-    { s with approxGoal := some new, approxDist := dg }
-  else s
+  approxStep sp (bestStep o (goalStep sp s new chk dstate)) new dstate
+
+/-- the state to add: the sample itself, or the point at `maxDistance_` towards it. -/
+def steerTo (sp : Space σ δ) (nm : Motion σ α) (rstate : σ) : σ :=
+  if sp.dlt sp.maxDistance (sp.dist nm.state rstate) then sp.steer nm.state rstate (sp.dist nm.state rstate) else rstate
 
 /-- one pass of the `while (ptc == false)` body. -/
 def iterate (o : Obj σ α) (sp : Space σ δ) (s0 : St σ α δ) : St σ α δ :=
@@ -428,13 +468,11 @@ def iterate (o : Obj σ α) (sp : Space σ δ) (s0 : St σ α δ) : St σ α δ 
       match s.motions[nmotion]? with
       | none => s
       | some nm =>
-        let d := sp.dist nm.state rstate
-        let dstate := if sp.dlt sp.maxDistance d then sp.steer nm.state rstate d else rstate
-        match s.checkMotion nm.state dstate with
+        match s.checkMotion nm.state (steerTo sp nm rstate) with
         | (false, s) => s
         | (true, s) =>
-          let (s, new, chk) := grow o sp s nmotion nm dstate
-          finishIter o sp s new chk dstate
+          finishIter o sp (grow o sp s nmotion nm (steerTo sp nm rstate)).1 (grow o sp s nmotion nm (steerTo sp nm rstate)).2.1
+            (grow o sp s nmotion nm (steerTo sp nm rstate)).2.2 (steerTo sp nm rstate)
 
 /-- `if (bestGoalMotion_ && opt_->isSatisfied(bestCost_)) break;` -/
 def shouldBreak (o : Obj σ α) (s : St σ α δ) : Bool :=
@@ -493,5 +531,24 @@ def beginSolve (sp : Space σ δ) (s : St σ α δ) : St σ α δ :=
 def solve (o : Obj σ α) (sp : Space σ δ) (budget : Nat) (s : St σ α δ) : St σ α δ × Option (Report σ α δ) :=
   let s' := loop o sp budget (beginSolve sp s)
   (s', report o s')
+
+/-- everything that can happen to a planner instance between `setup()` and now: start states are added,
+the oracles deliver more answers, `solve()` is entered (again), the loop body runs once.  A run of
+`solve()` with any termination condition, interrupted anywhere, continued any number of times, is a
+list of these (the `break` and the termination condition only decide *how many* `iter` there are). -/
+inductive Op (σ δ : Type) where
+  | start (x : σ)
+  | feed (u01s : List δ) (samples : List σ) (answers : List Bool)
+  | beginSolve
+  | iter
+
+def applyOp (o : Obj σ α) (sp : Space σ δ) (s : St σ α δ) : Op σ δ → St σ α δ
+  | .start x => s.addStart o x
+  | .feed us xs as => { s with u01s := s.u01s ++ us, samples := s.samples ++ xs, answers := s.answers ++ as }
+  | .beginSolve => beginSolve sp s
+  | .iter => iterate o sp s
+
+def run (o : Obj σ α) (sp : Space σ δ) (s : St σ α δ) (ops : List (Op σ δ)) : St σ α δ :=
+  ops.foldl (applyOp o sp) s
 
 end OmplModel.RRTstar
